@@ -323,6 +323,19 @@ func parsePCR(i *astikit.BytesIterator) (cr *ClockReference, err error) {
 }
 
 func writePacket(w *astikit.BitsWriter, p *Packet, targetPacketSize int) (written int, retErr error) {
+	// Make sure everything fits before writing anything, otherwise the stream would be left with a partial packet
+	available := targetPacketSize - 1 - mpegTsPacketHeaderSize
+	if p.Header.HasAdaptationField {
+		available -= calcPacketAdaptationFieldSize(p.AdaptationField)
+	}
+	if available < len(p.Payload) {
+		return 0, fmt.Errorf(
+			"writePacket: can't write %d bytes of payload: only %d is available",
+			len(p.Payload),
+			available,
+		)
+	}
+
 	if retErr = w.Write(uint8(syncByte)); retErr != nil {
 		return
 	}
@@ -410,6 +423,34 @@ func calcPacketAdaptationFieldLength(af *PacketAdaptationField) (length uint8) {
 		length += 1 + calcPacketAdaptationFieldExtensionLength(af.AdaptationExtensionField)
 	}
 	length += uint8(af.StuffingLength)
+	return
+}
+
+// calcPacketAdaptationFieldSize returns the number of bytes writePacketAdaptationField writes, computed as an int
+// since an oversized adaptation field doesn't fit in the uint8 of calcPacketAdaptationFieldLength
+func calcPacketAdaptationFieldSize(af *PacketAdaptationField) (size int) {
+	if af.IsOneByteStuffing {
+		return 1
+	}
+	size = 2 // length and flags
+	if af.HasPCR {
+		size += pcrBytesSize
+	}
+	if af.HasOPCR {
+		size += pcrBytesSize
+	}
+	if af.HasSplicingCountdown {
+		size++
+	}
+	if af.HasTransportPrivateData {
+		size += 1 + len(af.TransportPrivateData)
+	}
+	if af.HasAdaptationExtensionField {
+		size += 1 + int(calcPacketAdaptationFieldExtensionLength(af.AdaptationExtensionField))
+	}
+	if af.StuffingLength > 0 {
+		size += af.StuffingLength
+	}
 	return
 }
 
